@@ -293,7 +293,7 @@ def run(ctx):
                             'tail junk stripped after each, two other logs) next to the complete index (SPEC applies) and next to the index cut at a record boundary (model only); data files named '
                             'log.p1log, capture.bin, capture.raw, session (no extension), session.5.log, input.p1log in rotation; opened with MixedLogReader (ignore_index False; True for 4 cut lengths), read to the end, '
                             'then re-opened; num_threads=1 except every ~11th case (default pool). Compared: message offsets/lengths/bytes, exception, .p1i afterwards. '
-                            'In addition whole histories inside ONE interpreter and directory: index (complete / marker cut / one record) on disk, open, then data modified (message appended, junk+message appended, cut to a boundary, cut inside a message, restored, emptied; two orders) with a re-open after each change while the index file is left alone unless the library rewrites it; and on logs spanning two 80 KiB indexer blocks: first open with max_bytes (1000, 50000, 81919, 81920, 83000, size-1, size, size+5), then unlimited, limited, unlimited; unlimited then limited with ignore_index then unlimited. A case is distinct by (data file, index bytes, ignore_index).' % (len(logs), 'every message boundary' if ctx.thorough else 'the end/start of the last indexed message and one random boundary'))
+                            'In addition whole histories inside ONE interpreter and directory: index (complete / marker cut / one record) on disk, open, then data modified (message appended, junk+message appended, cut to a boundary, cut inside a message, restored, emptied; two orders) with a re-open after each change while the index file is left alone unless the library rewrites it; and on logs spanning two 80 KiB indexer blocks: first open with max_bytes (1000, 50000, 81919, 81920, 83000, size-1, size, size+5), then unlimited, limited, unlimited; unlimited then limited with ignore_index then unlimited; GROW histories with the old end of file just before / at / 50 bytes after the 80 KiB block boundary, at the end of the message crossing it, 3000 bytes after it, and the new end at the end of that message, < 16 KiB after the boundary (message boundary and raw), just below / above boundary + 16 KiB and the full log, each followed by an open and a second open through the saved index; on the small logs the library re-indexes (ignore_index) over a longer and over a shorter existing .p1i, followed by regrow-with-other-content / shrink and further opens; the .p1i bytes the library writes are compared with the saved form of the fresh index. A case is distinct by (data file, index bytes, ignore_index).' % (len(logs), 'every message boundary' if ctx.thorough else 'the end/start of the last indexed message and one random boundary'))
     ctx.coverage['exhaustive'] = False
     ctx.coverage['exhaustive_scope'] = 'truncation lengths of the index file: all 0..len; data histories and logs: the listed / generated sets (not exhaustive)'
     ctx.trusted_base += ['Coq 8.16.1 kernel + vm_compute', 'extraction (ExtrOcamlBasic only), ocaml/conv.ml + c09_driver.ml',
@@ -369,10 +369,58 @@ def in_process_histories(ctx, model, g, logs, datas, frames0, fulls):
                               {'op': 'open2', 'threads': None, 'what': 'two readers alive at once, no index file'},
                               {'op': 'open', 'threads': 1, 'opts': {'save_index': False}, 'what': 'open with save_index=False next to a saved index'}]
                 hist.append(('log %d, index cut at %d, order %d' % (li, k, variant), NAMES[(li + k) % len(NAMES)], steps, d))
+    # the library REWRITES an index over an existing longer / shorter one (ignore_index=True), then the data changes again
+    for li, (d, fr, full) in enumerate(zip(datas, frames0, fulls)):
+        if full is None or len(fr) < 2:
+            continue
+        (oa, na), (ob, nb2) = fr[-2], fr[-1]
+        swapped = d[:oa] + d[ob:ob + nb2] + d[oa + na:ob] + d[oa:oa + na] + d[ob + nb2:]      # same size, last two messages swapped
+        first_end = fr[0][0] + fr[0][1]
+        longer = d + g.appended + b'\x00junk.' + g.appended
+        for nm, seq in [('shrink, re-index over the longer index, regrow to the old size with other content',
+                         [(d[:first_end], True, 'data shrunk to its first message, ignore_index (rewrites a shorter index over the old one)'),
+                          (swapped, False, 'data regrown to the old size, last two messages swapped'), (swapped, False, 'opened again'),
+                          (d, False, 'original data restored')]),
+                        ('grow, re-index over the shorter index, shrink back',
+                         [(longer, True, 'data grown, ignore_index (rewrites a longer index over the old one)'),
+                          (d, False, 'data cut back to the old size'), (d[:first_end], True, 'shrunk, ignore_index again'),
+                          (longer, False, 'grown again')])]:
+            steps = [{'op': 'data', 'hex': d.hex()}, {'op': 'p1i', 'hex': full}, {'op': 'open', 'threads': 1, 'what': 'first open'}]
+            for dd, ig, what in seq:
+                steps.append({'op': 'data', 'hex': dd.hex()})
+                steps.append({'op': 'open', 'threads': 1, 'ignore': ig, 'what': what})
+            hist.append(('log %d: %s' % (li, nm), NAMES[(li + 1) % len(NAMES)], steps, d))
     # byte-limited opens on multi-block logs
     for bi in range(3 if ctx.thorough else 1):
-        big = c18.file_of(big_log(g, ctx.rng))
+        big_pieces = big_log(g, ctx.rng)
+        big = c18.file_of(big_pieces)
         size = len(big)
+        # ---- the log GROWS between opens, old and new end of file placed around the 80 KiB block boundary -------------
+        bounds, pos = [], 0
+        for kk, hh in big_pieces:
+            pos += len(hh) // 2
+            if is_msg(kk):
+                bounds.append(pos)                      # ends of messages
+        BLK, OVL = 81920, 16384
+        below = lambda x: max([b for b in bounds if b <= x] or [bounds[0]])
+        above = lambda x: min([b for b in bounds if b >= x] or [bounds[-1]])
+        straddle_end = above(BLK)                       # end of the message that crosses (or ends at) the boundary
+        olds = [below(BLK - 1), BLK, BLK + 50, straddle_end, above(BLK + 3000)]
+        news = [straddle_end, below(BLK + 5000), BLK + 5000, below(BLK + OVL - 1), above(BLK + OVL), size]
+        pairs = [(o, n) for o in olds for n in news if n > o]
+        if not ctx.thorough:
+            pairs = [pairs[i] for i in sorted(set(ctx.rng.sample(range(len(pairs)), 6)) | {next(i for i, (o, n) in enumerate(pairs) if o == BLK + 50 and n == below(BLK + 5000))})]
+        for o, n in pairs:
+            steps = [{'op': 'data', 'hex': big[:o].hex()}, {'op': 'p1i', 'hex': None},
+                     {'op': 'open', 'threads': 1, 'what': 'first open, %d bytes' % o},
+                     {'op': 'data', 'hex': big[:n].hex()},
+                     {'op': 'open', 'threads': 1 if (o + n) % 2 else None, 'what': 'open after the log grew to %d bytes' % n},
+                     {'op': 'open', 'threads': 1, 'what': 'second open through the saved index'}]
+            if ctx.thorough:
+                grown = big[:o] + b'\x00junk.1' + big[straddle_end:n]
+                steps += [{'op': 'data', 'hex': big[:o].hex()}, {'op': 'open', 'threads': 1, 'what': 'cut back to %d bytes' % o},
+                          {'op': 'data', 'hex': grown.hex()}, {'op': 'open', 'threads': 1, 'what': 'junk and messages appended'}]
+            hist.append(('multi-block log %d grows from %d to %d bytes (80 KiB boundary at %d)' % (bi, o, n, BLK), 'rec.p1log' if n % 2 else 'rec.bin', steps, None))
         limits = [1000, 50000, 81919, 81920, 83000, size - 1, size, size + 5] if bi == 0 else [ctx.rng.randrange(24, size) for _ in range(4)]
         for N in limits:
             steps = [{'op': 'data', 'hex': big.hex()}, {'op': 'p1i', 'hex': None},
@@ -401,12 +449,13 @@ def in_process_histories(ctx, model, g, logs, datas, frames0, fulls):
                     dset.append(b)
     tabs = p1_tables(ctx, model, dset)
     spec_fr = {b: frames_of(l) for b, l in zip(dset, vf.run_parallel(model, ['F ' + c18.hx(b) for b in dset]))}
-    spec_entries = {}     # records of the fresh index (without the EOF marker) per data file
+    spec_entries, spec_saved = {}, {}     # records of the fresh index without the EOF marker / the saved bytes, per data file
     for b, l in zip(dset, vf.run_parallel(model, ['O cur none %s 1 %s' % (c18.hx(b), tab(tabs[b])) for b in dset])):
         sp = parse_o(l)['p1i'] or ''
         fr_b = spec_fr[b]
         marker = bool(fr_b) and struct.unpack_from('<H', b, fr_b[-1][0] + 10)[0] != 0
         spec_entries[b] = sp[:-28] if marker else sp
+        spec_saved[b] = sp
     lines, meta = [], []
     for i, h in enumerate(hist):
         r = impl[str(i)]
@@ -473,6 +522,9 @@ def in_process_histories(ctx, model, g, logs, datas, frames0, fulls):
                 and o['index'] != spec_entries[cur]:
             bad = (dict(sig, obs='get_index'), 'history [%s], %s: get_index() holds %d entries that are not the fresh index (%d entries) of the current data'
                    % (h[0], st['what'], len(o['index']) // 28, len(spec_entries[cur]) // 28))
+        elif applies and o.get('p1i') is not None and o['p1i'] != o['before_p1i'] and o['p1i'] != spec_saved[cur]:
+            bad = (dict(sig, obs='p1i-after'), 'history [%s], %s: the library wrote a .p1i of %d bytes that is not the saved form of the fresh index (%s)'
+                   % (h[0], st['what'], len(o['p1i']) // 2, 'none' if not spec_saved[cur] else '%d bytes' % (len(spec_saved[cur]) // 2)))
         if not bad and (st.get('opts') or {}).get('save_index') is False and not m.get('crash'):
             # nothing is saved: the model's message list stands, the index file is as before unless a stale one was deleted
             m = dict(m, p1i=(None if m['load'] == 'rebuild:1' else o['before_p1i']))
